@@ -184,11 +184,11 @@ func runC10(c *Ctx) {
 		if errT.Is("nil") {
 			if _, ok := ana.Match("slice(alloc<[0]uint32>, 0, none)", valT); ok {
 				nEmpty++
-				r.Check(mustPass(fn, e.Instr.Block(), emptyEdges) && len(emptyEdges) == 2, "C10.exits.empty-path", c.ipos(e.Instr), "empty path returned exactly under s==\"\" or s==\"m\"")
+				r.Check(exitMustPass(fn, e, emptyEdges) && len(emptyEdges) == 2, "C10.exits.empty-path", c.ipos(e.Instr), "empty path returned exactly under s==\"\" or s==\"m\"")
 			} else {
 				nLoopRet++
 				// success return after the loop must not be reachable through the empty shortcuts
-				r.Check(!mustPass(fn, e.Instr.Block(), emptyEdges), "C10.exits.path-return", c.ipos(e.Instr), "path return comes from the component loop")
+				r.Check(!exitMustPass(fn, e, emptyEdges), "C10.exits.path-return", c.ipos(e.Instr), "path return comes from the component loop")
 			}
 			continue
 		}
